@@ -24,7 +24,9 @@ let parse_op (o : string) : lop option =
     | ["nP"] -> Some (LProbe PPop3)
     | [a; "S"] when a.[0] = 'o' -> Some (LOpen (num (rest_of a), PSmtp))
     | [a; "P"] when a.[0] = 'o' -> Some (LOpen (num (rest_of a), PPop3))
-    | [a] when a.[0] = 'O' -> Some (LOpenHeld (num (rest_of a)))
+    | [a] when a.[0] = 'O' -> Some (LOpenHeld (num (rest_of a), PSmtp))
+    | [a; "S"] when a.[0] = 'O' -> Some (LOpenHeld (num (rest_of a), PSmtp))
+    | [a; "P"] when a.[0] = 'O' -> Some (LOpenHeld (num (rest_of a), PPop3))
     | [a] when a.[0] = 'L' -> Some (LRelease (num (rest_of a)))
     | [a] when a.[0] = 'f' -> Some (LFinish (num (rest_of a)))
     | [a] when a.[0] = 'a' -> Some (LAbort (num (rest_of a)))
